@@ -389,7 +389,8 @@ Definition ctx_pick_iter (t : tbl) (u : pred) (care_vars : option (list ident))
 (* the measured contract of dd.pick_iter(u, care_bits) over the universe of
    declared bits: the cubes are pairwise disjoint (two cubes disagree on some
    bit both assign), their union is the set of models of u, every cube assigns
-   at least the care bits (default: the support) and only declared bits *)
+   at least the care bits (default: the support), only declared bits, and only
+   bits of the support or the care set *)
 Definition cube_holds (c : cube) (a : bitasg) : bool :=
   forallb (fun bv => Bool.eqb (a (fst bv)) (snd bv)) c.
 
@@ -419,7 +420,9 @@ Definition cube_contract_b (univ : list bit) (u : pred)
           (all_asgs univ) &&
   forallb (fun c => nodup_keys bit_eqb c &&
                     subset bit_eqb care_bits (map fst c) &&
-                    subset bit_eqb (map fst c) univ) cubes.
+                    subset bit_eqb (map fst c) univ &&
+                    subset bit_eqb (map fst c)
+                      (set_union bit_eqb (bsupport univ u) care_bits)) cubes.
 
 (* ---- first-order meaning -------------------------------------------------------- *)
 (* total first-order assignments, and the bit assignment that refines one *)
